@@ -52,6 +52,13 @@ where
                 database_key: database_key_index,
             })
         });
+        #[cfg(salsa_rs_salsa_verif)]
+        crate::verif_proto::record_fetch(&[
+            crate::verif_proto::P::S("exec"),
+            crate::verif_proto::P::T(crate::sync::thread::current().id()),
+            crate::verif_proto::P::K(database_key_index),
+            crate::verif_proto::P::S(&zalsa.current_revision().as_usize().to_string()),
+        ]);
 
         let (new_value, mut completed_query) = match C::CYCLE_STRATEGY {
             CycleRecoveryStrategy::Panic => {
